@@ -132,16 +132,66 @@ Proof.
   - intros c. destruct c as [|[|[|[|[|[|c]]]]]]; cbn; lia.
 Qed.
 
+(* ---- nested-set roll-up at index level: SUM (Fenwick), MIN/MAX (segment tree), COUNT ---- *)
+(* For every poset from_edges accepts and the probe sends to nested-set, every integer measure, every
+   set of built monoids and EVERY sequence of update_measure calls: rollup(y, o) is the fold of the
+   monoid over the brute-force descendant set under the updated measure.  So a point update lands
+   where a rebuild with the updated measure lands (us = [] is the freshly built index). *)
+Theorem C28_nested_rollup : forall n edges p measure ops us,
+  (forall c q, In (c, q) edges -> c < n /\ q < n) ->
+  from_edges n edges = inl p -> is_tree p = true ->
+  length measure = n -> (forall u, In u us -> fst u < n) ->
+  exists ix', apply_updates (set_measure (mk_index p (build_nested p) None []) measure ops) us = Some ix' /\
+    forall y o, y < n -> (o = OCount \/ In o ops) ->
+      rollup ix' y o = Some (rollup_spec p (upd_all measure us) y o).
+Proof.
+  intros n edges p measure ops us Hr H Ht Hm Hus.
+  destruct (from_edges_wf n edges p Hr H) as [[rk W] [_ [Hn _]]]. rewrite <- Hn in *.
+  apply (nested_rollup_all p rk W (is_tree_forest p Ht)); auto.
+Qed.
+
+(* update_measure == rebuild, as an equation between the two indexes' answers *)
+Theorem C28_nested_update_commutes : forall n edges p measure ops node v,
+  (forall c q, In (c, q) edges -> c < n /\ q < n) ->
+  from_edges n edges = inl p -> is_tree p = true ->
+  length measure = n -> node < n ->
+  exists ix', update_measure (set_measure (mk_index p (build_nested p) None []) measure ops) node v = Some ix' /\
+    forall y o, y < n -> (o = OCount \/ In o ops) ->
+      rollup ix' y o = rollup (set_measure (mk_index p (build_nested p) None []) (upd measure node v) ops) y o.
+Proof.
+  intros n edges p measure ops node v Hr H Ht Hm Hnode.
+  destruct (from_edges_wf n edges p Hr H) as [[rk W] [_ [Hn _]]]. rewrite <- Hn in *.
+  pose proof (is_tree_forest p Ht) as F.
+  destruct (nested_rollup_all p rk W F measure ops [(node, v)] Hm) as [ix' [E R]].
+  { intros u [<-|[]]. auto. }
+  cbn [apply_updates] in E.
+  destruct (update_measure (set_measure (mk_index p (build_nested p) None []) measure ops) node v) as [ix1|]; [|discriminate].
+  inversion E; subst ix1. exists ix'. split; auto. intros y o Hy Ho. rewrite (R y o Hy Ho).
+  destruct (nested_rollup_all p rk W F (upd measure node v) ops []) as [ix2 [E2 R2]].
+  { rewrite upd_length. auto. } { intros u []. }
+  cbn [apply_updates] in E2. inversion E2; subst ix2. symmetry. apply (R2 y o Hy Ho).
+Qed.
+
+Example C28_nested_rollup_nonvacuous :
+  let ix := set_measure (mk_index ex_forest (build_nested ex_forest) None [])
+                        [Some 5; None; Some 7; Some (-2); Some 1]%Z [OSum; OMin] in
+  is_tree ex_forest = true /\
+  rollup ix 0 OSum = Some (RInt 10) /\ rollup ix 1 OMin = Some (RInt (-2)) /\
+  option_map (fun i => rollup i 1 OMin) (apply_updates ix [(3, Some 4%Z); (2, None)]) = Some (Some (RInt 4)) /\
+  option_map (fun i => rollup i 0 OSum) (apply_updates ix [(3, Some 4%Z); (2, None)]) = Some (Some (RInt 9)) /\
+  rollup_spec ex_forest (upd_all [Some 5; None; Some 7; Some (-2); Some 1]%Z [(3, Some 4%Z); (2, None)]) 0 OSum = RInt 9.
+Proof. vm_compute. repeat split; reflexivity. Qed.
+
 (* ---- Fenwick tree (SUM) over an abstract array, all sizes ---- *)
 (* built tree answers every range with the exact range sum *)
-Theorem C28_rollup_fenwick_build_partial : forall vs lo hi, lo <= hi -> hi < length vs ->
+Theorem C28_fenwick_build : forall vs lo hi, lo <= hi -> hi < length vs ->
   fw_range (fw_build vs) lo hi =
   (sum_to (fun i => nth i vs 0%Z) (hi + 1) - sum_to (fun i => nth i vs 0%Z) lo)%Z.
 Proof. intros vs lo hi H1 H2. eapply fw_range_spec; eauto. apply fw_build_inv. Qed.
 
 (* a point update (Fenwick::add) followed by any range query = the range sum over the updated
    array; the invariant is preserved, so this holds after every sequence of updates *)
-Theorem C28_rollup_fenwick_update_partial : forall t a n pos d, fw_inv t a n -> pos < n ->
+Theorem C28_fenwick_update : forall t a n pos d, fw_inv t a n -> pos < n ->
   fw_inv (fw_add t pos d) (addf a pos d) n /\
   forall lo hi, lo <= hi -> hi < n ->
     fw_range (fw_add t pos d) lo hi = (sum_to (addf a pos d) (hi + 1) - sum_to (addf a pos d) lo)%Z.
@@ -153,6 +203,29 @@ Qed.
 Example C28_fenwick_nonvacuous :
   fw_range (fw_add (fw_build [3; 1; 4; 1; 5; 9; 2]%Z) 2 10%Z) 1 5 = 30%Z.
 Proof. vm_compute. reflexivity. Qed.
+
+(* ---- segment tree (MIN / MAX; any monoid whose declared identity is Null), all sizes ---- *)
+(* build answers every range with the fold of the range; a point update (SegmentTree::set) followed
+   by any range query = the fold over the updated array; st_ok is preserved, so this holds after
+   every sequence of updates *)
+Theorem C28_segtree : forall vals o, identity o = RNull ->
+  st_ok (st_build vals o) vals /\ st_op (st_build vals o) = o /\
+  (forall s vs, st_ok s vs -> identity (st_op s) = RNull ->
+     (forall lo hi, lo <= hi -> hi < length vs ->
+        st_range s lo hi = mfold (st_op s) (firstn (hi + 1 - lo) (skipn lo vs))) /\
+     (forall pos v, pos < length vs ->
+        st_ok (st_set s pos v) (upd vs pos v) /\ st_op (st_set s pos v) = st_op s)).
+Proof.
+  intros vals o Hid. destruct (st_build_ok vals o Hid) as [B1 B2]. split; auto. split; auto.
+  intros s vs Hok Hid'. split.
+  - intros lo hi H1 H2. apply st_range_ok; auto.
+  - intros pos v Hp. apply st_set_ok; auto.
+Qed.
+
+Example C28_segtree_nonvacuous :
+  let s := st_build [RInt 5; RInt 3; RInt 9; RInt 1; RInt 7]%Z OMin in
+  st_range s 0 4 = RInt 1 /\ st_range (st_set s 3 (RInt 100)) 0 4 = RInt 3 /\ st_range (st_set s 3 RNull) 3 3 = RNull.
+Proof. vm_compute. repeat split; reflexivity. Qed.
 
 (* ---- per-chain suffix folds (chain encoding roll-ups), all chain lengths, all four monoids ---- *)
 Theorem C28_monoid_laws : forall o,
@@ -197,7 +270,8 @@ Definition C28_from_edges_complete_full : Prop :=
   from_edges n edges = inr e ->
   ~ exists rk : nat -> nat, forall c q, In (c, q) edges -> rk c < rk q.
 
-(* subsumption / descendants / count under EVERY encoding the probe can select or that can be forced *)
+(* subsumption / descendants / count under EVERY encoding the probe can select or that can be forced
+   (proved for nested-set: C28_nested_reachable; open for chain and near-tree) *)
 Definition C28_subsumes_desc_full : Prop :=
   forall p rk f en m r, wf_poset p rk -> topo_ok p -> build_enc p f = inl en ->
   forall x y, x < pn p -> y < pn p ->
@@ -212,14 +286,16 @@ Definition C28_chain_partition_full : Prop :=
   NoDup (concat (decompose_chains p)) /\
   forall v, In v (concat (decompose_chains p)) <-> v < pn p.
 
-(* roll-up = fold of the monoid over the brute-force descendant set, every encoding, every monoid *)
+(* roll-up = fold of the monoid over the brute-force descendant set, every encoding, every monoid
+   (proved for nested-set: C28_nested_rollup; open for chain and near-tree) *)
 Definition C28_rollup_full : Prop :=
   forall p rk f en measure ops, wf_poset p rk -> topo_ok p -> build_enc p f = inl en ->
   length measure = pn p ->
   forall y o, y < pn p -> (o = OCount \/ In o ops) ->
   rollup (set_measure (mk_index p en None []) measure ops) y o = Some (rollup_spec p measure y o).
 
-(* a point update lands in the state a rebuild with the updated measure would produce *)
+(* a point update lands in the state a rebuild with the updated measure would produce
+   (proved for nested-set: C28_nested_update_commutes; open for chain and near-tree) *)
 Definition C28_update_commutes_full : Prop :=
   forall p rk f en measure ops node v, wf_poset p rk -> topo_ok p -> build_enc p f = inl en ->
   length measure = pn p -> node < pn p ->
@@ -227,14 +303,6 @@ Definition C28_update_commutes_full : Prop :=
   option_map (fun ix => rollup ix y o)
              (update_measure (set_measure (mk_index p en None []) measure ops) node v) =
   Some (rollup (set_measure (mk_index p en None []) (upd measure node v) ops) y o).
-
-(* segment tree (MIN / MAX): build, range and point update against the abstract array *)
-Definition C28_segtree_full : Prop :=
-  forall o vals lo hi, lo <= hi -> hi < length vals ->
-  st_range (st_build vals o) lo hi = fold_vals o (firstn (hi + 1 - lo) (skipn lo vals)) /\
-  forall pos v, pos < length vals ->
-    st_range (st_set (st_build vals o) pos v) lo hi =
-    fold_vals o (firstn (hi + 1 - lo) (skipn lo (upd vals pos v))).
 
 (* LCA set = minimal common ancestors *)
 Definition C28_lca_full : Prop :=
@@ -244,7 +312,7 @@ Definition C28_lca_full : Prop :=
 
 Definition C28_full : Prop :=
   C28_from_edges_complete_full /\ C28_subsumes_desc_full /\ C28_chain_partition_full /\
-  C28_rollup_full /\ C28_update_commutes_full /\ C28_segtree_full /\ C28_lca_full.
+  C28_rollup_full /\ C28_update_commutes_full /\ C28_lca_full.
 
 Print Assumptions C28_spec_closure.
 Print Assumptions C28_stale_until_rebuild.
@@ -252,10 +320,13 @@ Print Assumptions C28_measure_synced.
 Print Assumptions C28_refuted.
 Print Assumptions C28_from_edges_wf.
 Print Assumptions C28_nested_reachable.
+Print Assumptions C28_nested_rollup.
+Print Assumptions C28_nested_update_commutes.
+Print Assumptions C28_segtree.
 Print Assumptions C28_nested_subsumes.
 Print Assumptions C28_nested_desc.
-Print Assumptions C28_rollup_fenwick_build_partial.
-Print Assumptions C28_rollup_fenwick_update_partial.
+Print Assumptions C28_fenwick_build.
+Print Assumptions C28_fenwick_update.
 Print Assumptions C28_monoid_laws.
 Print Assumptions C28_rollup_chain_suffix_build_partial.
 Print Assumptions C28_update_commutes_chain_suffix_partial.
